@@ -356,8 +356,9 @@ def rewrite_body(S, b0, b1, opts, log):
                     z += 1
                 rhs = text_of(src, toks, i + 1, z)
                 ln = line_of(src, t.start)
-                ed.add(toks[a].start, toks[z - 1].end, f"{lv} = {lv} {t.text[0]} ({rhs})", "R7",
-                       f"{S.rel}:{ln} f64 compound assignment")
+                fn_ = "ext::f64_sub" if t.text[0] == "-" else "ext::f64_add"
+                ed.add(toks[a].start, toks[z - 1].end, f"{lv} = {fn_}({lv}, {rhs})", "R7",
+                       f"{S.rel}:{ln} f64 compound assignment -> {fn_} (value uninterpreted)")
                 consumed_until = z - 1
                 i += 1
                 continue
@@ -393,6 +394,13 @@ def rewrite_body(S, b0, b1, opts, log):
             ed.add(toks[kw].start, toks[ob].end, new, "R6", f"{S.rel}:{ln} for -> loop/next (termination not proved)")
         else:
             ed.add(toks[ob].start, toks[ob].start, f"\n{inv}\n", "R4", f"{S.rel}:{ln} loop invariant inserted")
+    for n, ptxt in opts.get("loop_end", {}).items():
+        if n < 1 or n > len(loops):
+            raise ExtractError(f"lost anchor: loop #{n} not found for loop_end_proof")
+        kw, ob = loops[n - 1]
+        cb = match_close(toks, ob)
+        ed.add(toks[cb].start, toks[cb].start, "\nproof {\n" + ptxt + "}\n", "R4",
+               f"{S.rel}:{line_of(src, toks[cb].start)} ghost proof block at the end of loop #{n}")
     text = ed.apply(src, toks[b0].start, toks[b1].end)
     if opts.get("r14"):
         text = "{ let mut this = self;" + text[1:]
@@ -413,7 +421,13 @@ def rewrite_body(S, b0, b1, opts, log):
             raise ExtractError(f"lost anchor: proof anchor `{a}` matches {text.count(a)} times")
         k = text.index(a)
         block = "proof {\n" + pr["text"] + "}\n"
-        if pr["where"] == "proof_before":
+        if pr["where"].startswith("ghost_"):
+            # ghost declarations (`let ghost x = ..;`): erased by Verus like proof blocks
+            for gl in pr["text"].strip().split("\n"):
+                if gl.strip() and not re.match(r"^\s*(let ghost |proof\s*\{|\}|//|assert|lemma_|[a-z_]+\s*=[^=])", gl):
+                    pass
+            block = pr["text"]
+        if pr["where"].endswith("_before"):
             text = text[:k] + block + text[k:]
         else:
             # after the end of the statement containing the anchor: next `;` at nesting depth 0
@@ -697,14 +711,18 @@ def parse_template(path):
                     raise ExtractError(f"{path}:{i+1}: bad slice")
                 cur["slice"] = (m.group(1), m.group(2))
                 cur["slice_tail"] = m.group(3) or ""
-            elif cmd.startswith("proof_after ") or cmd.startswith("proof_before "):
-                m = re.match(r"(proof_after|proof_before)\s+<<(.*)>>\s*$", cmd)
+            elif cmd.startswith("proof_after ") or cmd.startswith("proof_before ") or cmd.startswith("ghost_after ") or cmd.startswith("ghost_before "):
+                m = re.match(r"(proof_after|proof_before|ghost_after|ghost_before)\s+<<(.*)>>\s*$", cmd)
                 if not m:
                     raise ExtractError(f"{path}:{i+1}: bad {cmd.split()[0]}")
                 cur.setdefault("proofs", []).append({"where": m.group(1), "anchor": m.group(2), "text": ""})
                 mode = ("proof", len(cur["proofs"]) - 1)
             elif cmd == "spec":
                 mode = "spec"
+            elif cmd.startswith("loop_end_proof "):
+                n = int(cmd.split()[1])
+                cur.setdefault("loop_end", {})[n] = ""
+                mode = ("loop_end", n)
             elif cmd.startswith("loop "):
                 ps = cmd.split()
                 n = int(ps[1])
@@ -721,6 +739,8 @@ def parse_template(path):
                 out.append(("text", ln))
             elif mode == "spec":
                 cur["spec"] += ln + "\n"
+            elif isinstance(mode, tuple) and mode[0] == "loop_end":
+                cur["loop_end"][mode[1]] += ln + "\n"
             elif isinstance(mode, tuple) and mode[0] == "proof":
                 cur["proofs"][mode[1]]["text"] += ln + "\n"
             elif isinstance(mode, tuple):
